@@ -641,6 +641,9 @@ pub fn generate(r: &mut Rng, opts: &GenOpts) -> Universe {
             .iter()
             .flat_map(|z| z.ns.iter().filter(|h| !under(h, &z.apex)).cloned().collect::<Vec<_>>())
             .collect();
+        // per host and record type (one TTL per RRset), decided once
+        let mut short: Vec<(String, String)> = Vec::new();
+        let mut decided: Vec<(String, String)> = Vec::new();
         for z in &mut u.zones {
             let in_zone_ns: Vec<String> = z.ns.iter().filter(|h| under(h, &z.apex)).cloned().collect();
             for rec in &mut z.records {
@@ -649,9 +652,17 @@ pub fn generate(r: &mut Rng, opts: &GenOpts) -> Universe {
                 if is_addr
                     && outside.iter().any(|h| names_equal(h, &rec.owner))
                     && !in_zone_ns.iter().any(|h| names_equal(h, &rec.owner))
-                    && r.below(100) < u64::from(opts.zero_ttl_outside_ns_addresses)
                 {
-                    rec.ttl = opts.short_ttl_value;
+                    let key = (rec.owner.to_ascii_lowercase(), rec.rtype().to_string());
+                    if !decided.contains(&key) {
+                        decided.push(key.clone());
+                        if r.below(100) < u64::from(opts.zero_ttl_outside_ns_addresses) {
+                            short.push(key.clone());
+                        }
+                    }
+                    if short.contains(&key) {
+                        rec.ttl = opts.short_ttl_value;
+                    }
                 }
             }
         }
